@@ -692,7 +692,9 @@ impl S3 for FileSystem {
             return Err(s3_error!(NoSuchBucket));
         }
 
-        let upload_id = self.create_upload_id(req.credentials.as_ref()).await?;
+        let upload_id = self
+            .create_upload_id(req.credentials.as_ref(), &input.bucket, &input.key)
+            .await?;
 
         if let Some(ref metadata) = input.metadata {
             self.save_metadata(&input.bucket, &input.key, metadata, Some(upload_id))
@@ -713,6 +715,8 @@ impl S3 for FileSystem {
     async fn upload_part(&self, req: S3Request<UploadPartInput>) -> S3Result<S3Response<UploadPartOutput>> {
         let UploadPartInput {
             body,
+            bucket,
+            key,
             upload_id,
             part_number,
             ..
@@ -728,7 +732,8 @@ impl S3 for FileSystem {
         let body = body.ok_or_else(|| s3_error!(IncompleteBody))?;
 
         let upload_id = Uuid::parse_str(&upload_id).map_err(|_| s3_error!(NoSuchUpload))?;
-        self.verify_upload_id(req.credentials.as_ref(), &upload_id).await?;
+        self.verify_upload_id(req.credentials.as_ref(), &upload_id, &bucket, &key)
+            .await?;
 
         let file_path = self.resolve_upload_part_path(upload_id, part_number)?;
 
@@ -763,7 +768,8 @@ impl S3 for FileSystem {
         }
 
         let upload_id = Uuid::parse_str(&input.upload_id).map_err(|_| s3_error!(NoSuchUpload))?;
-        self.verify_upload_id(req.credentials.as_ref(), &upload_id).await?;
+        self.verify_upload_id(req.credentials.as_ref(), &upload_id, &input.bucket, &input.key)
+            .await?;
 
         let (src_bucket, src_key) = match input.copy_source {
             CopySource::AccessPoint { .. } => return Err(s3_error!(NotImplemented)),
@@ -827,7 +833,7 @@ impl S3 for FileSystem {
         } = req.input;
 
         let uuid = Uuid::parse_str(&upload_id).map_err(|_| s3_error!(NoSuchUpload))?;
-        self.check_upload_exists(&uuid)?;
+        self.check_upload_exists(&uuid, &bucket, &key).await?;
 
         let mut parts: Vec<Part> = Vec::new();
         let mut iter = try_!(fs::read_dir(&self.root).await);
@@ -889,7 +895,8 @@ impl S3 for FileSystem {
         let Some(multipart_upload) = multipart_upload else { return Err(s3_error!(InvalidPart)) };
 
         let upload_id = Uuid::parse_str(&upload_id).map_err(|_| s3_error!(NoSuchUpload))?;
-        self.verify_upload_id(req.credentials.as_ref(), &upload_id).await?;
+        self.verify_upload_id(req.credentials.as_ref(), &upload_id, &bucket, &key)
+            .await?;
 
         let object_path = self.get_object_path(&bucket, &key)?;
 
@@ -984,7 +991,8 @@ impl S3 for FileSystem {
         } = req.input;
 
         let upload_id = Uuid::parse_str(&upload_id).map_err(|_| s3_error!(NoSuchUpload))?;
-        self.verify_upload_id(req.credentials.as_ref(), &upload_id).await?;
+        self.verify_upload_id(req.credentials.as_ref(), &upload_id, &bucket, &key)
+            .await?;
 
         let _ = self.delete_metadata(&bucket, &key, Some(upload_id));
 
